@@ -19,9 +19,9 @@ HOSTILE = ("bool true false nullptr typeof alignas asm class new this in i fo if
 PREFIX_CLASSES = ("g_", "s_", "t_", "u_", "e_")
 
 INT_TYPES = ["int", "char", "long", "short", "unsigned int", "unsigned char", "unsigned long", "long long",
-             "size_t", "float", "double"]
+             "size_t", "float", "double", "unsigned long long", "signed char", "long int", "unsigned short"]
 INTEGER_TYPES = ["int", "char", "long", "short", "unsigned int", "unsigned char", "unsigned long", "long long",
-                 "size_t"]
+                 "size_t", "unsigned long long", "signed char", "long int", "unsigned short"]
 
 _INTS = literals.conf_int_list()
 _FLOATS = literals.conf_float_list()
@@ -71,6 +71,7 @@ class Env:
         self.structs = []   # struct values
         self.sptrs = []     # struct pointers
         self.funcs = []     # callable names
+        self.fptrs = []     # function-pointer parameters
         self.void = void
 
     def nums(self):
@@ -248,16 +249,33 @@ class Gen:
             inner = [(r.choice(env.ints), "id:var")]
         return [("sizeof", "kw"), ("(", "punct")] + inner + [(")", "punct")]
 
+    def callee(self, env):
+        r = self.r
+        x = r.random()
+        if env.fptrs and x < 0.25:
+            self.feats.add("call_fptr")
+            f = (r.choice(env.fptrs), "id:var")
+            if r.random() < 0.5:
+                return [f]
+            return [("(", "punct"), ("*", "op:un"), f, (")", "punct")]
+        if env.sptrs and x < 0.32:
+            self.feats.add("call_member")
+            return [(r.choice(env.sptrs), "id:var"), ("->", "op:member"), (self.member(), "id:member")]
+        return [(r.choice(env.funcs), "id:func")]
+
     def call(self, env, depth):
         r = self.r
         n = r.randint(0, 3)
-        out = [(r.choice(env.funcs), "id:func"), ("(", "punct")]
+        out = self.callee(env) + [("(", "punct")]
         for k in range(n):
             if k:
                 out += [(",", "op:comma"), SP]
             y = r.random()
             if y < 0.15:
                 out.append(self.str_const())
+                if r.random() < 0.15:
+                    self.feats.add("str_concat")
+                    out += [SP, self.str_const()]
             elif y < 0.25 and env.ints:
                 self.feats.add("addrof")
                 out += [("&", "op:un"), (r.choice(env.ints), "id:var")]
@@ -690,10 +708,28 @@ class Gen:
         segs.append((name, "id:param"))
         return segs
 
+    def fptr_param_segs(self, name):
+        r = self.r
+        rt = r.choice(["int", "void", "char", "size_t"])
+        segs = type_segs(rt) + [SP, ("(", "punct"), ("*", "op:ptr"), (name, "id:param"), (")", "punct"), ("(", "punct")]
+        n = r.randint(0, 3)
+        if n == 0:
+            segs.append(("void", "type"))
+        for k in range(n):
+            if k:
+                segs += [(",", "op:comma"), SP]
+            t = r.choice(["int", "char", "void", "long", "size_t"])
+            segs += type_segs(t)
+            if t == "void" or r.random() < 0.3:
+                segs += [SP, ("*", "op:ptr")]
+        segs.append((")", "punct"))
+        return segs
+
     def function(self, idx, static=False, nparams=None, nvars=None, body_lines=None, name=None):
         r = self.r
         for _ in range(200):
-            rtype = r.choice(["int", "void", "char", "long", "unsigned int", "size_t"] + self.types[:1])
+            rtype = r.choice(["int", "void", "char", "long", "unsigned int", "size_t", "unsigned long long"] + self.types[:1]
+                             + ["struct " + t for t in self.tags[:1]])
             ptr = "*" * (r.random() < 0.3) if rtype != "void" else r.choice(["", "*"])
             fname = name or self.ident("ft_" if r.random() < 0.5 else "", 2, 9, hostile=0.2)
             npar = r.randint(0, 4) if nparams is None else nparams
@@ -702,8 +738,20 @@ class Gen:
             params = []
             pv = []
             for _ in range(npar):
+                if r.random() < 0.08:
+                    self.feats.add("fptr_param")
+                    n = self.ident(hostile=0.2)
+                    params.append(self.fptr_param_segs(n))
+                    pv.append(("fptrs", n))
+                    continue
                 t, st, n, arr, k = self.new_var(allow_array=False)
-                params.append(self.param_segs(t, st, n))
+                if st and r.random() < 0.2:
+                    self.feats.add("const_param")
+                    ps = [("const", "kw"), SP] + self.param_segs(t, st, n) if r.random() < 0.5 else \
+                        type_segs(t) + [SP, ("const", "kw"), SP, (st, "op:ptr"), (n, "id:param")]
+                    params.append(ps)
+                else:
+                    params.append(self.param_segs(t, st, n))
                 pv.append((k, n))
             head = []
             if static:
@@ -733,22 +781,33 @@ class Gen:
         for _ in range(nv):
             t, st, n, arr, k = self.new_var()
             q = ""
+            if not arr and k in ("ints", "ptrs") and t != "void" and r.random() < 0.12:
+                q = r.choice(["static", "const"])
+                self.feats.add("local_" + q)
             decls.append((q, t, st, n, arr))
             getattr(env, k).append(n)
         lines = [Line("fhead", head, 0, idx, fname=fname, nparams=npar, static=static),
                  Line("fopen", [("{", "punct")], 0, idx)]
         if decls:
-            end = max(vis_width("\t" + t) for _, t, _, _, _ in decls)
+            end = max(vis_width("\t" + (q + " " if q else "") + t) for q, t, _, _, _ in decls)
             col = (end // 4 + 1) * 4
             for q, t, st, n, arr in decls:
-                segs = [IND(1)] + type_segs(t)
-                segs.append(TAB(pad_tabs(vis_width("\t" + t), col)))
+                segs = [IND(1)] + ([(q, "kw"), SP] if q else []) + type_segs(t)
+                segs.append(TAB(pad_tabs(vis_width("\t" + (q + " " if q else "") + t), col)))
                 if st:
                     segs.append((st, "op:ptr"))
                 segs.append((n, "id:var"))
                 segs += arr
+                if q:
+                    init = ("NULL", "kw") if st else (self.int_const() if t not in ("float", "double") else self.float_const())
+                    if st and t == "char" and len(st) == 1 and r.random() < 0.5:
+                        init = self.str_const()
+                    segs += [SP, ("=", "op:assign"), SP, init]
                 segs.append((";", "punct"))
-                lines.append(Line("decl", segs, 1, idx, first=(len(lines) == 2), ptr=bool(st), arr=bool(arr), col=col))
+                if vis_width("".join(x for x, _ in segs)) > 80:
+                    segs = [x for x in segs]
+                lines.append(Line("decl", segs, 1, idx, first=(len(lines) == 2), ptr=bool(st), arr=bool(arr), col=col,
+                                  qualified=bool(q)))
             lines.append(Line("blank_in", [], 0, idx))
         budget = 25 - (len(decls) + 1 if decls else 0)
         if body_lines is not None:
@@ -803,26 +862,81 @@ class Gen:
             self.feats.add("comment_top")
             L.append(self.comment_line())
             L.append(Line("blank", []))
-        if r.random() < 0.3:
+        if r.random() < 0.2:
+            self.feats.add("c_ifdef")
+            m = self.macro()
+            L += [Line("pp_ifdef", [("#ifdef", "pp"), SP, (self.macro(), "id:macro")]),
+                  Line("pp_define", [("#", "pp"), SP, ("define", "pp"), SP, (m, "id:macro"), SP, self.int_const()], 1),
+                  Line("pp_else", [("#else", "pp")]),
+                  Line("pp_define", [("#", "pp"), SP, ("define", "pp"), SP, (m, "id:macro"), SP, self.int_const()], 1),
+                  Line("pp_endif", [("#endif", "pp")]),
+                  Line("blank", [])]
+        if r.random() < 0.35:
             self.feats.add("global")
-            q = r.choice(["static", "const", "static const"])
-            t = r.choice(["int", "char", "long", "unsigned int"])
-            segs = [(q, "kw"), SP, (t, "type"), TAB(1), (self.ident("g_", 1, 6), "id:global"), SP, ("=", "op:assign"), SP,
-                    self.int_const(), (";", "punct")]
-            if comments and r.random() < 0.2:
-                segs += [SP, ("/* " + r.choice(["value", "the x", "n"]) + " */", "comment:block")]
-                self.feats.add("comment_eol_global")
-            L.append(Line("global", segs))
+            gl = []
+            for _ in range(r.choice([1, 1, 2, 3])):
+                q = r.choice(["static", "const", "static const", ""])
+                t = r.choice(["int", "char", "long", "unsigned int", "unsigned long long"])
+                form = r.choice(["init", "init", "plain", "array", "ptr"])
+                gl.append((q, t, form, self.ident("g_", 1, 6)))
+            end = max(vis_width((q + " " if q else "") + t) for q, t, _, _ in gl)
+            col = (end // 4 + 1) * 4
+            for q, t, form, name in gl:
+                left = (q + " " if q else "") + t
+                segs = ([(q, "kw"), SP] if q else []) + [(t, "type"), TAB(pad_tabs(vis_width(left), col))]
+                if form == "ptr":
+                    segs += [("*", "op:ptr"), (name, "id:global")]
+                    if q:
+                        segs += [SP, ("=", "op:assign"), SP, ("NULL", "kw")]
+                elif form == "array":
+                    self.feats.add("global_array_init")
+                    n = r.randint(1, 4)
+                    segs += [(name, "id:global"), ("[", "punct"), (str(n), "const:int"), ("]", "punct"), SP, ("=", "op:assign"), SP,
+                             ("{", "punct")]
+                    for k in range(n):
+                        if k:
+                            segs += [(",", "op:comma"), SP]
+                        segs.append(self.int_const())
+                    segs.append(("}", "punct"))
+                elif form == "plain" and "const" not in q:
+                    segs += [(name, "id:global")]
+                else:
+                    segs += [(name, "id:global"), SP, ("=", "op:assign"), SP, self.int_const()]
+                segs.append((";", "punct"))
+                if comments and r.random() < 0.15 and W(segs) < 60:
+                    segs += [SP, ("/* " + r.choice(["value", "the x", "n"]) + " */", "comment:block")]
+                    self.feats.add("comment_eol_global")
+                if W(segs) > 80:
+                    k = next(i for i, sg in enumerate(segs) if sg[1] == "id:global")
+                    segs = segs[:k + 1] + [SP, ("=", "op:assign"), SP, ("0", "const:int"), (";", "punct")]
+                L.append(Line("global", segs))
             L.append(Line("blank", []))
         nf = r.randint(1, 5) if nfuncs is None else nfuncs
         funcs = []
         for k in range(nf):
             lines, head, env = self.function(k, static=r.random() < 0.4)
             funcs.append((lines, head))
-        if r.random() < 0.3 and W(list(funcs[0][1]) + [(";", "punct")]) <= 80:
-            self.feats.add("proto")
-            L.append(Line("proto", list(funcs[0][1]) + [(";", "punct")], 0, -1))
-            L.append(Line("blank", []))
+        if r.random() < 0.3:
+            # prototypes of some of the file's functions, names on one column
+            chosen = [f for f in funcs if r.random() < 0.6][:3] or funcs[:1]
+
+            def left_of(head):
+                k = next(i for i, sg in enumerate(head) if sg[1] == "ws:tab")
+                return head[:k], head[k + 1:]
+            lefts = [text(left_of(h)[0]) for _, h in chosen]
+            col = (max(vis_width(x) for x in lefts) // 4 + 1) * 4
+            plines = []
+            for (_, h), lt in zip(chosen, lefts):
+                a, b = left_of(h)
+                segs = list(a) + [TAB(pad_tabs(vis_width(lt), col))] + list(b) + [(";", "punct")]
+                plines.append(segs)
+            if all(W(x) <= 80 for x in plines):
+                self.feats.add("proto")
+                if len(plines) > 1:
+                    self.feats.add("protos_aligned")
+                for k, segs in enumerate(plines):
+                    L.append(Line("proto", segs, 0, -1, nparams=chosen[k][0][0].meta.get("nparams"), first=(k == 0)))
+                L.append(Line("blank", []))
         for k, (lines, _) in enumerate(funcs):
             if k and comments and r.random() < 0.1:
                 self.feats.add("comment_between")
@@ -869,6 +983,23 @@ class Gen:
                 L.append(Line("pp_define", [("#", "pp"), SP, ("define", "pp"), SP, (self.macro(), "id:macro"), SP,
                                             self.defval()], 1))
             L.append(Line("blank", []))
+        if r.random() < 0.3:
+            self.feats.add("h_ifdef")
+            m = self.macro()
+            cond = r.choice([[("#", "pp"), SP, ("ifdef", "pp"), SP, (self.macro(), "id:macro")],
+                             [("#", "pp"), SP, ("ifndef", "pp"), SP, (self.macro(), "id:macro")],
+                             [("#", "pp"), SP, ("if", "pp"), SP, ("defined", "pp"), ("(", "punct"), (self.macro(), "id:macro"), (")", "punct"),
+                              SP, ("&&", "op:bin"), SP, ("!", "op:un"), ("defined", "pp"), ("(", "punct"), (self.macro(), "id:macro"),
+                              (")", "punct")]])
+            L += [Line("pp_ifdef", cond, 1),
+                  Line("pp_define", [("#", "pp"), ("  ", "ws:ppindent"), ("define", "pp"), SP, (m, "id:macro"), SP, self.int_const()], 2),
+                  Line("pp_else", [("#", "pp"), SP, ("else", "pp")], 1),
+                  Line("pp_define", [("#", "pp"), ("  ", "ws:ppindent"), ("define", "pp"), SP, (m, "id:macro"), SP, self.int_const()], 2),
+                  Line("pp_endif", [("#", "pp"), SP, ("endif", "pp")], 1)]
+            if r.random() < 0.4:
+                self.feats.add("h_define_empty")
+                L.append(Line("pp_define", [("#", "pp"), SP, ("define", "pp"), SP, (self.macro(), "id:macro")], 1))
+            L.append(Line("blank", []))
         if comments and r.random() < 0.25:
             L.append(self.comment_line())
             L.append(Line("blank", []))
@@ -876,16 +1007,38 @@ class Gen:
         for _ in range(r.randint(0, 3)):
             kind = r.choice(["struct", "union", "enum"])
             tag = self.ident({"struct": "s_", "union": "u_", "enum": "e_"}[kind], 2, 6)
-            tname = self.ident("t_", 2, 6)
+            plain = r.random() < 0.25
+            tname = None if plain else self.ident("t_", 2, 6)
             if kind == "enum":
                 members = [self.macro() for _ in range(r.randint(1, 4))]
             else:
                 members = []
                 for _ in range(r.randint(1, 4)):
-                    t = r.choice(INT_TYPES + self.types[:2])
-                    members.append((t, "*" * r.choice([0, 0, 1]), self.ident(hostile=0.2)))
+                    x = r.random()
+                    nm = self.ident(hostile=0.2)
+                    if x < 0.6:
+                        t = r.choice(INT_TYPES + self.types[:2])
+                        members.append((t, "*" * r.choice([0, 0, 1]), nm, []))
+                    elif x < 0.72:
+                        members.append(("struct " + tag, "*", nm, []))         # self reference
+                    elif x < 0.86:
+                        t = r.choice(INTEGER_TYPES)
+                        members.append((t, "", nm, [("[", "punct"), (r.choice(["2", "8", "64"]), "const:int"), ("]", "punct")]))
+                    else:
+                        members.append((r.choice(["void", "int"]), "(*", nm, [(")", "punct"), ("(", "punct"), (r.choice(["int", "void *", "char *"]), "type"),
+                                                                              (")", "punct")]))
+                        self.feats.add("h_fptr_member")
             items.append((kind, tag, tname, members))
-            self.types.append(tname)
+            if tname:
+                self.types.append(tname)
+            else:
+                self.feats.add("h_plain_" + kind)
+                self.tags.append(tag) if kind == "struct" else None
+        externs = []
+        if r.random() < 0.2:
+            self.feats.add("h_extern")
+            for _ in range(r.randint(1, 2)):
+                externs.append((r.choice(["int", "char", "unsigned int"]), self.ident("g_", 1, 6)))
         protos = []
         for _ in range(r.randint(0, 4)):
             rtype = r.choice(["int", "void", "char", "long", "unsigned int", "size_t"] + self.types[:1])
@@ -895,11 +1048,20 @@ class Gen:
                 t = r.choice(INT_TYPES + self.types[:2])
                 params.append(self.param_segs(t, "*" * r.choice([0, 0, 1]), self.ident(hostile=0.2)))
             protos.append((rtype, ptr, self.ident("ft_", 2, 8), params))
-        heads = ["typedef %s %s" % (k, tag) for (k, tag, _, _) in items] + [p[0] for p in protos]
+        heads = ["typedef %s %s" % (k, tag) for (k, tag, tn, _) in items if tn] + [p[0] for p in protos] + \
+                ["extern " + t for t, _ in externs]
         col = (max(len(h) for h in heads) // 4 + 1) * 4 if heads else 4
         fidx = 0
+        for t, n in externs:
+            L.append(Line("global", [("extern", "kw"), SP, (t, "type"), TAB(pad_tabs(len("extern " + t), col)), (n, "id:global"),
+                                     (";", "punct")]))
+        if externs:
+            L.append(Line("blank", []))
         for (kind, tag, tname, members) in items:
-            L.append(Line("td_head", [("typedef", "kw"), SP, (kind, "kw"), SP, (tag, "id:tag")], 0, -1, utype=kind))
+            if tname:
+                L.append(Line("td_head", [("typedef", "kw"), SP, (kind, "kw"), SP, (tag, "id:tag")], 0, -1, utype=kind))
+            else:
+                L.append(Line("td_head", [(kind, "kw"), SP, (tag, "id:tag")], 0, -1, utype=kind, plain=True))
             L.append(Line("td_open", [("{", "punct")]))
             if kind == "enum":
                 for i, m in enumerate(members):
@@ -908,15 +1070,20 @@ class Gen:
                         segs.append((",", "op:comma"))
                     L.append(Line("td_enum_member", segs, 1))
             else:
-                mcol = (max(vis_width("\t" + t) for t, _, _ in members) // 4 + 1) * 4
+                mcol = (max(vis_width("\t" + t) for t, _, _, _ in members) // 4 + 1) * 4
                 mcol = max(mcol, col)
-                for t, st, n in members:
+                for t, st, n, tail in members:
                     segs = [IND(1)] + type_segs(t) + [TAB(pad_tabs(vis_width("\t" + t), mcol))]
-                    if st:
+                    if st == "(*":
+                        segs += [("(", "punct"), ("*", "op:ptr")]
+                    elif st:
                         segs.append((st, "op:ptr"))
-                    segs += [(n, "id:member"), (";", "punct")]
+                    segs += [(n, "id:member")] + tail + [(";", "punct")]
                     L.append(Line("td_member", segs, 1))
-            L.append(Line("td_close", [("}", "punct"), TAB(pad_tabs(1, col)), (tname, "id:type"), (";", "punct")], 0, -1))
+            if tname:
+                L.append(Line("td_close", [("}", "punct"), TAB(pad_tabs(1, col)), (tname, "id:type"), (";", "punct")], 0, -1))
+            else:
+                L.append(Line("td_close", [("}", "punct"), (";", "punct")], 0, -1))
             L.append(Line("blank", []))
         for rt, ptr, n, params in protos:
             def build(params):
